@@ -74,7 +74,11 @@ class ArmPolicy(symex.Policy):
             self.done.append(st)
 
     def inline(self, path, body):
-        return False
+        # private helpers of the interpreter module (e.g. a routine that pops the arguments of a call) belong to the arm that calls them;
+        # the stack primitives and the public entry points are handled by stub() / stay opaque
+        vis = str(body.d.get("vis", ""))
+        return "::interp::interp::" in path and vis.startswith("Restricted") and "interp::interp)" in vis and \
+            not re.search(r"::(run_raw|run_program|resolve_args|call_macro|call|callable_by_name|get_\w+_by_name|checked_jump_target|enter_program)$", path)
 
     def stub(self, interp, st, path, c, args, t, caller):
         m = re.search(r"InterpStack::<'a, 'b>::(pop|pop_val|pop_noresolve|pop_tryresolve|push|push_val)$", path)
